@@ -266,3 +266,152 @@ Lemma init_inv2 : Inv2 (init c).
 Proof. unfold Inv2. simpl. discriminate. Qed.
 
 End Progress.
+
+(* ------------------------------------------------------------------ conservation of sockets and attempted addresses *)
+Section Conservation.
+Variable c : rcfg.
+Hypothesis ids_distinct : NoDup (map a_id (c_addrs c)).
+Hypothesis nonempty : c_addrs c <> [].
+
+(* every open socket has been created by an attempt of this race *)
+Definition Inv3 (s : rstate) : Prop := forall id, In id (r_open s) -> In id (r_created s).
+
+Lemma remove_incl x l id : In id (remove_id x l) -> In id l.
+Proof. intro H. apply in_remove_id in H. tauto. Qed.
+
+Lemma child_finish_inv3 s i o op cr :
+  (forall id, In id op -> In id cr) -> Inv3 (child_finish s i o op cr).
+Proof.
+  intros H. unfold Inv3, child_finish. destruct o; [destruct (r_winner s)| | |]; simpl; auto.
+  intros x Hin. apply H. eapply remove_incl; eauto.
+Qed.
+
+Lemma step_inv3 s l s' : Inv3 s -> step c s l = Some s' -> Inv3 s'.
+Proof.
+  intros I3 H. unfold Inv3 in I3.
+  destruct l as [ | timer | | swallow | i | i | i | i | i | i | ]; unfold step in H.
+  - destruct (r_host s); try discriminate. destruct (r_caller s); [discriminate|]. injection H as <-.
+    unfold spawn_next. destruct (_ <? _); unfold Inv3; simpl; exact I3.
+  - destruct (r_host s); try discriminate.
+    match type of H with (if ?b then _ else _) = _ => destruct b end; [|discriminate]. injection H as <-.
+    unfold spawn_next. destruct (_ <? _); unfold Inv3; simpl; exact I3.
+  - destruct (pending_cancel s); [|discriminate]. destruct (r_host s); try discriminate; injection H as <-; unfold Inv3; simpl; exact I3.
+  - destruct (all_children_done s); [|discriminate].
+    assert (Hcw : forall id, In id (close_winner s) -> In id (r_created s)).
+    { intros id Hin. apply I3. unfold close_winner in Hin. destruct (r_winner s); [eapply remove_incl; eauto | exact Hin]. }
+    destruct (r_host s); try discriminate;
+      repeat match type of H with
+             | (if ?b then _ else _) = _ => destruct b
+             | match ?b with _ => _ end = _ => destruct b
+             end; try discriminate; injection H as <-; unfold Inv3; simpl; auto.
+  - destruct (nth_error (r_att s) i) as [[|[]| |]|] eqn:Et; try discriminate.
+    destruct (nth_error (c_addrs c) i) as [a|] eqn:Ha; [|discriminate].
+    (* a socket is only added when socket() succeeded, and then its id is recorded *)
+    assert (Hop : forall st op, cc_advance (c_locals c) [a] 0 (r_open s) = (st, op) ->
+              forall id, In id op -> In id (if a_create a then r_created s ++ [a_id a] else r_created s)).
+    { intros st op E id Hin. simpl in E. destruct (a_create a); simpl in E.
+      - destruct (bind_all (c_locals c) a); [destruct (a_conn a)| |]; inversion E; subst;
+          try (apply in_or_app; left; apply I3; exact Hin);
+          (destruct Hin as [<- | Hin]; apply in_or_app; [right; left; reflexivity | left; apply I3; exact Hin]).
+      - inversion E; subst. apply I3. exact Hin. }
+    destruct (cc_advance (c_locals c) [a] 0 (r_open s)) as [[cur rest errs | o] op] eqn:E; injection H as <-.
+    + unfold Inv3. intros x Hx. simpl in *. exact (Hop _ _ eq_refl x Hx).
+    + apply child_finish_inv3. intros x Hx. exact (Hop _ _ eq_refl x Hx).
+  - destruct (nth_error (r_att s) i) as [[|[]| |]|] eqn:Et; try discriminate. injection H as <-. unfold Inv3; simpl; exact I3.
+  - destruct (nth_error (r_att s) i) as [[| |[]|]|]; try discriminate.
+    unfold child_resume in H. destruct (nth_error (c_addrs c) i) as [a|]; [|discriminate]. cbn [cc_resume cc_advance] in H. injection H as <-.
+    apply (child_finish_inv3 s i (OutSock (a_id a)) (r_open s) (r_created s)). exact I3.
+  - destruct (nth_error (r_att s) i) as [[| |[]|]|]; try discriminate.
+    unfold child_resume in H. destruct (nth_error (c_addrs c) i) as [a|]; [|discriminate]. cbn [cc_resume cc_advance] in H. injection H as <-.
+    apply (child_finish_inv3 s i (OutErrs 1) (remove_id (a_id a) (r_open s)) (r_created s)). intros id Hin. apply I3. eapply remove_incl; eauto.
+  - destruct (nth_error (r_att s) i) as [[| |[]|]|]; try discriminate.
+    unfold child_resume in H. destruct (nth_error (c_addrs c) i) as [a|]; [|discriminate]. cbn [cc_resume cc_advance] in H. injection H as <-.
+    apply (child_finish_inv3 s i OutCrash (remove_id (a_id a) (r_open s)) (r_created s)). intros id Hin. apply I3. eapply remove_incl; eauto.
+  - destruct (nth_error (r_att s) i) as [[| |[]|]|]; try discriminate.
+    unfold child_resume in H. destruct (nth_error (c_addrs c) i) as [a|]; [|discriminate]. cbn [cc_resume cc_advance] in H. injection H as <-.
+    apply (child_finish_inv3 s i OutCancel (remove_id (a_id a) (r_open s)) (r_created s)). intros id Hin. apply I3. eapply remove_incl; eauto.
+  - destruct (r_host s); try discriminate; injection H as <-; unfold Inv3; simpl; exact I3.
+Qed.
+
+Lemma exec_inv3 : forall tr s s', Inv3 s -> exec c s tr = Some s' -> Inv3 s'.
+Proof.
+  induction tr as [|l tr IH]; intros s s' I H; simpl in H.
+  - inversion H; subst; exact I.
+  - destruct (step c s l) as [s1|] eqn:E; [|discriminate]. eapply IH; [eapply step_inv3; eauto | exact H].
+Qed.
+
+(* when all attempts failed every address of the (reordered) list was attempted, and each contributed an error *)
+Definition Inv4 (s : rstate) : Prop :=
+  forall n, r_result s = Some (ResErrs n) -> (forall t, In t (r_att s) -> t = TFin) /\ length (c_addrs c) <= n.
+
+Lemma step_inv4 s l s' : Inv c s -> Inv4 s -> step c s l = Some s' -> Inv4 s'.
+Proof.
+  intros I I4 H. destruct (r_result s) eqn:Er.
+  - (* nothing happens after a result *)
+    exfalso. assert (Hh : r_host s = HDone) by (apply (i_done c s I); rewrite Er; discriminate).
+    pose proof (i_alldone c s I Hh) as Hall. unfold all_children_done in Hall. rewrite forallb_forall in Hall.
+    assert (Hc : forall i t, nth_error (r_att s) i = Some t -> child_done t = true)
+      by (intros i t Hn; apply Hall; eapply nth_error_In; eauto).
+    destruct l; simpl in H; rewrite ?Hh in H; try discriminate;
+      try (destruct (all_children_done s); discriminate);
+      try (destruct (pending_cancel s); discriminate);
+      (destruct (nth_error (r_att s) i) as [t|] eqn:E; [| discriminate]; specialize (Hc _ _ E);
+       destruct t as [|[]|[]|]; simpl in Hc; discriminate).
+  - intros n Hn.
+    (* the result has just been produced: only LHostFinish can do that *)
+    destruct l as [ | timer | | swallow | i | i | i | i | i | i | ]; unfold step in H.
+    + destruct (r_host s); try discriminate. destruct (r_caller s); [discriminate|]. injection H as <-.
+      unfold spawn_next in Hn. destruct (_ <? _); simpl in Hn; congruence.
+    + destruct (r_host s); try discriminate.
+      match type of H with (if ?b then _ else _) = _ => destruct b end; [|discriminate]. injection H as <-.
+      unfold spawn_next in Hn. destruct (_ <? _); simpl in Hn; congruence.
+    + destruct (pending_cancel s); [|discriminate]. destruct (r_host s); try discriminate; injection H as <-; simpl in Hn; congruence.
+    + destruct (all_children_done s) eqn:Hall; [|discriminate].
+      destruct (r_host s) eqn:Eh; try discriminate.
+      * destruct (r_crashed s) eqn:Ec; [injection H as <-; simpl in Hn; discriminate|].
+        destruct (r_winner s) eqn:Hw; injection H as <-; simpl in Hn; [discriminate|]. inversion Hn; subst n. simpl.
+        pose proof (i_none c s I) as Hnone. rewrite Eh in Hnone.
+        assert (Hfin : forall t, In t (r_att s) -> t = TFin).
+        { intros t Ht. unfold all_children_done in Hall. rewrite forallb_forall in Hall. pose proof (Hall t Ht) as Hd.
+          apply In_nth_error in Ht. destruct Ht as [j Hj]. pose proof (Hnone _ _ Hj).
+          destruct t; simpl in Hd; try discriminate; auto. exfalso; auto. }
+        split; [exact Hfin|].
+        assert (He : early (r_host s)) by (rewrite Eh; exact Logic.I).
+        pose proof (i_err c s I He Hw Ec) as Hle. rewrite count_all in Hle.
+        -- rewrite (i_len c s I) in Hle. exact Hle.
+        -- intros t Ht. rewrite (Hfin t Ht). discriminate.
+        -- exact Hall.
+      * destruct (r_crashed s); [injection H as <-; simpl in Hn; discriminate|].
+        destruct swallow.
+        -- destruct (r_scope s) eqn:Es; [|discriminate]. destruct (r_winner s) eqn:Hw; injection H as <-; simpl in Hn; [discriminate|].
+           exfalso. apply (i_scope c s I Es). exact Hw.
+        -- destruct (r_caller s); [|discriminate]. injection H as <-. simpl in Hn. discriminate.
+    + destruct (nth_error (r_att s) i) as [[|[]| |]|]; try discriminate.
+      destruct (nth_error (c_addrs c) i); [|discriminate].
+      destruct (cc_advance _ _ _ _) as [[? ? ?|o] op]; injection H as <-; [simpl in Hn; congruence|].
+      unfold child_finish in Hn. destruct o; [destruct (r_winner s)| | |]; simpl in Hn; congruence.
+    + destruct (nth_error (r_att s) i) as [[|[]| |]|]; try discriminate. injection H as <-. simpl in Hn. congruence.
+    + destruct (nth_error (r_att s) i) as [[| |[]|]|]; try discriminate.
+      unfold child_resume in H. destruct (nth_error (c_addrs c) i); [|discriminate]. simpl in H. injection H as <-.
+      unfold child_finish in Hn. destruct (r_winner s); simpl in Hn; congruence.
+    + destruct (nth_error (r_att s) i) as [[| |[]|]|]; try discriminate.
+      unfold child_resume in H. destruct (nth_error (c_addrs c) i); [|discriminate]. simpl in H. injection H as <-.
+      simpl in Hn. congruence.
+    + destruct (nth_error (r_att s) i) as [[| |[]|]|]; try discriminate.
+      unfold child_resume in H. destruct (nth_error (c_addrs c) i); [|discriminate]. simpl in H. injection H as <-.
+      simpl in Hn. congruence.
+    + destruct (nth_error (r_att s) i) as [[| |[]|]|]; try discriminate.
+      unfold child_resume in H. destruct (nth_error (c_addrs c) i); [|discriminate]. simpl in H. injection H as <-.
+      simpl in Hn. congruence.
+    + destruct (r_host s); try discriminate; injection H as <-; simpl in Hn; congruence.
+Qed.
+
+Lemma exec_inv4 : forall tr s s', Inv c s -> Inv4 s -> exec c s tr = Some s' -> Inv4 s'.
+Proof.
+  induction tr as [|l tr IH]; intros s s' I I4 H; simpl in H.
+  - inversion H; subst; exact I4.
+  - destruct (step c s l) as [s1|] eqn:E; [|discriminate].
+    eapply IH; [eapply step_inv; eauto | eapply step_inv4; eauto | exact H].
+Qed.
+
+End Conservation.
